@@ -55,8 +55,11 @@ Definition is_cen (x : fr) : bool := match x with Cen _ => true | _ => false end
 Definition dfr : fr := Raw 0 0 0.
 
 (* ------------------------------------------------------------------ arrays *)
-Record arr (A : Type) := mkArr { a_buf : nat; a_pos : list nat; a_val : list A }.
-Arguments mkArr {A}. Arguments a_buf {A}. Arguments a_pos {A}. Arguments a_val {A}.
+(* a_f: the array is a transposed (Fortran-ordered) 2-d array with more than one row, as the unitcell_vectors setter
+   makes them (np.vstack((a, b, c)).T): never C-contiguous, so ensure_type (np.ascontiguousarray) copies it and
+   every view of it *)
+Record arr (A : Type) := mkArr { a_buf : nat; a_pos : list nat; a_val : list A; a_f : bool }.
+Arguments mkArr {A}. Arguments a_buf {A}. Arguments a_pos {A}. Arguments a_val {A}. Arguments a_f {A}.
 
 Definition sel {A} (d : A) (l : list A) (idx : list nat) : list A := map (fun i => nth i l d) idx.
 
@@ -176,14 +179,21 @@ Definition put (w : world) (r : nat) (t : traj) : world :=
 
 (* a fresh array holding the given values *)
 Definition new_arr {A} (w : world) (vals : list A) : world * arr A :=
-  let '(w1, b) := fresh_buf w in (w1, mkArr b (seq 0 (length vals)) vals).
+  let '(w1, b) := fresh_buf w in (w1, mkArr b (seq 0 (length vals)) vals false).
 Definition copy_arr {A} (w : world) (a : arr A) : world * arr A := new_arr w (a_val a).
 Definition copy_oarr {A} (w : world) (o : option (arr A)) : world * option (arr A) :=
   match o with None => (w, None) | Some a => let '(w1, a') := copy_arr w a in (w1, Some a') end.
 
+(* ensure_type(value, float32, ...): the same array if it is C-contiguous, otherwise a contiguous copy *)
+Definition ensure_oarr {A} (w : world) (o : option (arr A)) : world * option (arr A) :=
+  match o with
+  | Some a => if a_f a then copy_oarr w o else (w, o)
+  | None => (w, None)
+  end.
+
 (* a[key] of a stored array: view or copy according to numpy *)
 Definition view_arr {A} (d : A) (a : arr A) (idx : list nat) : arr A :=
-  mkArr (a_buf a) (sel 0 (a_pos a) idx) (sel d (a_val a) idx).
+  mkArr (a_buf a) (sel 0 (a_pos a) idx) (sel d (a_val a) idx) (a_f a).
 
 (* in-place write of new frame values at the positions of a view *)
 Fixpoint write_pos (l : list fr) (ps : list nat) (vs : list fr) : list fr :=
@@ -214,6 +224,7 @@ Definition slice_arr {A} (d : A) (w : world) (a : arr A) (idx : list nat) (shp :
     (thru_ensure_type : bool) (is_time : bool) : world * arr A :=
   let fresh := new_arr w (sel d (a_val a) idx) in
   if copy then fresh else
+  if thru_ensure_type && a_f a then fresh else        (* a view of a Fortran-ordered array is not C-contiguous *)
   match shp with
   | KsFancy => fresh
   | KsRow => if is_time then fresh               (* numpy scalar -> np.array([value]) *)
@@ -346,8 +357,11 @@ Definition do_stack (w : world) (r r' : nat) : world * res :=
     let fs := zip_stk (frames w t) (frames w o) in
     let '(w1, b) := alloc_x w fs in
     let '(w2, tl) := fresh_top w1 in
-    (* unitcell arrays and time are handed over as they are: the result shares them with self *)
-    match construct w2 b (seq 0 (length fs)) (na t + na o) tl (chains t ++ chains o) (tm t) (ul t) (ua t) with
+    (* unitcell arrays and time are handed over as they are: the result shares them with self, unless
+       ensure_type has to copy a Fortran-ordered cell array *)
+    let '(w3, ul') := ensure_oarr w2 (ul t) in
+    let '(w4, ua') := ensure_oarr w3 (ua t) in
+    match construct w4 b (seq 0 (length fs)) (na t + na o) tl (chains t ++ chains o) (tm t) ul' ua' with
     | (_, RErr e) => (w, RErr e)
     | ok => ok
     end
@@ -530,7 +544,8 @@ Definition do_set_vectors (w : world) (r : nat) (m : option nat) (allzero : bool
       let '(w1, s) := fresh_src w in
       let '(w2, l) := new_arr w1 (map (CVec s) (seq 0 m)) in
       let '(w3, a) := new_arr w2 (map (CVec s) (seq 0 m)) in
-      (put w3 r (set_cell t (Some l) (Some a)), ROk)
+      let fort (c : arr cval) := mkArr (a_buf c) (a_pos c) (a_val c) (1 <? m) in     (* np.vstack((..)).T *)
+      (put w3 r (set_cell t (Some (fort l)) (Some (fort a))), ROk)
     end
   end.
 
